@@ -50,10 +50,13 @@
 
 #include <cstddef>
 #include <deque>
+#include <list>
 #include <initializer_list>
+#include <optional>
 #include <string>
 #include <type_traits>
 #include <utility>
+#include <variant>
 #include <vector>
 
 namespace
@@ -272,6 +275,32 @@ struct io<std::vector<T>>
   }
 };
 
+template <typename T>
+struct io<std::list<T>>
+{
+  static std::string sh(std::list<T> const &x) { return io<std::vector<T>>::sh(std::vector<T>(x.begin(), x.end())); }
+};
+template <typename T>
+struct io<std::deque<T>>
+{
+  static std::string sh(std::deque<T> const &x) { return io<std::vector<T>>::sh(std::vector<T>(x.begin(), x.end())); }
+};
+
+// a value or `X` (used for lists of functions some of which throw)
+template <typename T>
+struct io<std::optional<T>>
+{
+  static std::optional<T> rd(char const *&p)
+  {
+    if (*p == 'X')
+    {
+      ++p;
+      return std::nullopt;
+    }
+    return std::optional<T>{io<T>::rd(p)};
+  }
+};
+
 template <>
 struct io<bool>
 {
@@ -302,12 +331,19 @@ T tok(std::string const &s)
   return r;
 }
 
+// A table entry `X` makes the continuation throw E2 instead of returning.
 template <typename T>
 struct table
 {
-  std::vector<T> t;
+  std::vector<std::optional<T>> t;
   // a poisoned (moved-from) argument is looked up as 0; the log shows the 9
-  T at(int const i) const { return t[static_cast<std::size_t>(i) < t.size() ? static_cast<std::size_t>(i) : 0U]; }
+  T at(int const i) const
+  {
+    std::optional<T> const &e{t[static_cast<std::size_t>(i) < t.size() ? static_cast<std::size_t>(i) : 0U]};
+    if (!e.has_value())
+      throw E2{};
+    return *e;
+  }
 };
 
 int ix(int const v) { return v >= 0 && v < 3 ? v : 0; }
@@ -318,10 +354,27 @@ table<T> tbl(std::size_t const n, std::string const &s)
   char const *p = s.c_str();
   table<T> r;
   for (std::size_t i = 0; i < n; ++i)
-    r.t.push_back(io<T>::rd(p));
+  {
+    if (*p == 'X')
+    {
+      ++p;
+      r.t.push_back(std::nullopt);
+    }
+    else
+      r.t.push_back(std::optional<T>{io<T>::rd(p)});
+  }
   if (*p != '\0')
     throw bad_op{};
   return r;
+}
+
+// a single value or `X` (the thunk that is given this throws E2)
+template <typename T>
+std::optional<T> tokx(std::string const &s)
+{
+  if (s == "X")
+    return std::nullopt;
+  return std::optional<T>{tok<T>(s)};
 }
 
 template <typename T>
@@ -359,12 +412,14 @@ auto fn3(char const *const site, table<Rt> const &t)
   };
 }
 template <typename Rt>
-auto thunk(char const *const site, Rt const &v)
+auto thunk(char const *const site, std::optional<Rt> const &v)
 {
   return [site, &v]() -> Rt
   {
     lg(site, {});
-    return v;
+    if (!v.has_value())
+      throw E2{};
+    return *v;
   };
 }
 
@@ -382,82 +437,139 @@ bool same(T const &a, T const &b)
 }
 
 // ------------------------------------------------------------------ value categories
-// L: non-const lvalue, C: const lvalue, R: rvalue.  After a call on an lvalue the source must be unchanged.
+// One letter per argument -- L: non-const lvalue, C: const lvalue, R: rvalue (a single letter stands for all
+// arguments).  After a call on an lvalue the source must be unchanged, also when the call ends in an exception.
+bool g_src_mod = false;
+
+template <char Cat, typename T>
+struct holder;
+template <typename T>
+struct holder<'L', T>
+{
+  T x;
+  explicit holder(T const &s) : x{s} {}
+  T &get() { return x; }
+  [[nodiscard]] bool ok(T const &s) const { return same(x, s); }
+};
+template <typename T>
+struct holder<'C', T>
+{
+  T const x;
+  explicit holder(T const &s) : x{s} {}
+  T const &get() { return x; }
+  [[nodiscard]] bool ok(T const &s) const { return same(x, s); }
+};
+template <typename T>
+struct holder<'R', T>
+{
+  T x;
+  explicit holder(T const &s) : x{s} {}
+  T &&get() { return std::move(x); }
+  [[nodiscard]] bool ok(T const &) const { return true; }
+};
+
+template <char C1, typename T1, typename Fn>
+std::string run1(T1 const &s1, Fn const &fn)
+{
+  holder<C1, T1> h1{s1};
+  try
+  {
+    std::string r{show(fn(h1.get()))};
+    return h1.ok(s1) ? r : r + " SRC-MODIFIED";
+  }
+  catch (bad_op const &)
+  {
+    throw;
+  }
+  catch (...)
+  {
+    if (!h1.ok(s1))
+      g_src_mod = true;
+    throw;
+  }
+}
+
+template <char C1, char C2, typename T1, typename T2, typename Fn>
+std::string run2(T1 const &s1, T2 const &s2, Fn const &fn)
+{
+  holder<C1, T1> h1{s1};
+  holder<C2, T2> h2{s2};
+  try
+  {
+    std::string r{show(fn(h1.get(), h2.get()))};
+    return h1.ok(s1) && h2.ok(s2) ? r : r + " SRC-MODIFIED";
+  }
+  catch (bad_op const &)
+  {
+    throw;
+  }
+  catch (...)
+  {
+    if (!(h1.ok(s1) && h2.ok(s2)))
+      g_src_mod = true;
+    throw;
+  }
+}
+
+template <char C1, char C2, char C3, typename T1, typename T2, typename T3, typename Fn>
+std::string run3(T1 const &s1, T2 const &s2, T3 const &s3, Fn const &fn)
+{
+  holder<C1, T1> h1{s1};
+  holder<C2, T2> h2{s2};
+  holder<C3, T3> h3{s3};
+  try
+  {
+    std::string r{show(fn(h1.get(), h2.get(), h3.get()))};
+    return h1.ok(s1) && h2.ok(s2) && h3.ok(s3) ? r : r + " SRC-MODIFIED";
+  }
+  catch (bad_op const &)
+  {
+    throw;
+  }
+  catch (...)
+  {
+    if (!(h1.ok(s1) && h2.ok(s2) && h3.ok(s3)))
+      g_src_mod = true;
+    throw;
+  }
+}
+
 template <typename T, typename Fn>
 std::string cat1(std::string const &c, T const &src, Fn const &fn)
 {
   if (c == "L")
-  {
-    T x{src};
-    std::string r{show(fn(x))};
-    return same(x, src) ? r : r + " SRC-MODIFIED";
-  }
+    return run1<'L'>(src, fn);
   if (c == "C")
-  {
-    T const x{src};
-    std::string r{show(fn(x))};
-    return same(x, src) ? r : r + " SRC-MODIFIED";
-  }
+    return run1<'C'>(src, fn);
   if (c == "R")
-  {
-    T x{src};
-    return show(fn(std::move(x)));
-  }
+    return run1<'R'>(src, fn);
   throw bad_op{};
 }
 
+// all nine combinations
 template <typename T1, typename T2, typename Fn>
-std::string cat2(std::string const &c, T1 const &s1, T2 const &s2, Fn const &fn)
+std::string cat2(std::string const &c0, T1 const &s1, T2 const &s2, Fn const &fn)
 {
-  if (c == "L")
-  {
-    T1 x1{s1};
-    T2 x2{s2};
-    std::string r{show(fn(x1, x2))};
-    return same(x1, s1) && same(x2, s2) ? r : r + " SRC-MODIFIED";
-  }
-  if (c == "C")
-  {
-    T1 const x1{s1};
-    T2 const x2{s2};
-    std::string r{show(fn(x1, x2))};
-    return same(x1, s1) && same(x2, s2) ? r : r + " SRC-MODIFIED";
-  }
-  if (c == "R")
-  {
-    T1 x1{s1};
-    T2 x2{s2};
-    return show(fn(std::move(x1), std::move(x2)));
-  }
+  std::string const c{c0.size() == 1 ? std::string(2, c0[0]) : c0};
+#define VH_C2(a, b) \
+  if (c.size() == 2 && c[0] == a && c[1] == b) \
+    return run2<a, b>(s1, s2, fn);
+  VH_C2('L', 'L') VH_C2('L', 'C') VH_C2('L', 'R') VH_C2('C', 'L') VH_C2('C', 'C') VH_C2('C', 'R') VH_C2('R', 'L') VH_C2('R', 'C') VH_C2('R', 'R')
+#undef VH_C2
   throw bad_op{};
 }
 
+// the three uniform combinations and every mixture of L and R (C mixes like L: both are lvalue references)
 template <typename T1, typename T2, typename T3, typename Fn>
-std::string cat3(std::string const &c, T1 const &s1, T2 const &s2, T3 const &s3, Fn const &fn)
+std::string cat3(std::string const &c0, T1 const &s1, T2 const &s2, T3 const &s3, Fn const &fn)
 {
-  if (c == "L")
-  {
-    T1 x1{s1};
-    T2 x2{s2};
-    T3 x3{s3};
-    std::string r{show(fn(x1, x2, x3))};
-    return same(x1, s1) && same(x2, s2) && same(x3, s3) ? r : r + " SRC-MODIFIED";
-  }
-  if (c == "C")
-  {
-    T1 const x1{s1};
-    T2 const x2{s2};
-    T3 const x3{s3};
-    std::string r{show(fn(x1, x2, x3))};
-    return same(x1, s1) && same(x2, s2) && same(x3, s3) ? r : r + " SRC-MODIFIED";
-  }
-  if (c == "R")
-  {
-    T1 x1{s1};
-    T2 x2{s2};
-    T3 x3{s3};
-    return show(fn(std::move(x1), std::move(x2), std::move(x3)));
-  }
+  std::string const c{c0.size() == 1 ? std::string(3, c0[0]) : c0};
+#define VH_C3(a, b, d) \
+  if (c.size() == 3 && c[0] == a && c[1] == b && c[2] == d) \
+    return run3<a, b, d>(s1, s2, s3, fn);
+  VH_C3('L', 'L', 'L') VH_C3('C', 'C', 'C') VH_C3('R', 'R', 'R') VH_C3('R', 'L', 'L') VH_C3('L', 'R', 'L') VH_C3('L', 'L', 'R')
+  VH_C3('R', 'R', 'L') VH_C3('R', 'L', 'R') VH_C3('L', 'R', 'R')
+#undef VH_C3
   throw bad_op{};
 }
 
@@ -528,7 +640,7 @@ std::string op(std::vector<std::string> const &t)
   }
   if (o == "o.alt" && n == 4)
   {
-    oA const a{tok<oA>(t[3])};
+    std::optional<oA> const a{tokx<oA>(t[3])};
     return cat1(t[1], tok<oA>(t[2]), [&](auto &&x) -> oA { return fo::alternative(FWD(x), thunk<oA>("a", a)); });
   }
   if (o == "o.combine" && n == 5)
@@ -544,12 +656,12 @@ std::string op(std::vector<std::string> const &t)
                 { return fo::sequence<std::vector<A>>(FWD(x)); });
   if (o == "o.from" && n == 4)
   {
-    A const d{tok<A>(t[3])};
+    std::optional<A> const d{tokx<A>(t[3])};
     return cat1(t[1], tok<oA>(t[2]), [&](auto &&x) -> A { return fo::from(FWD(x), thunk<A>("d", d)); });
   }
   if (o == "o.maybe" && n == 5)
   {
-    B const d{tok<B>(t[3])};
+    std::optional<B> const d{tokx<B>(t[3])};
     auto const f = tbl<B>(3, t[4]);
     return cat1(t[1], tok<oA>(t[2]), [&](auto &&x) -> B { return fo::maybe(FWD(x), thunk<B>("d", d), fn1<B, A>("t", f)); });
   }
@@ -563,20 +675,20 @@ std::string op(std::vector<std::string> const &t)
   }
   if (o == "o.mm1" && n == 5)
   {
-    R const d{tok<R>(t[3])};
+    std::optional<R> const d{tokx<R>(t[3])};
     auto const f = tbl<R>(3, t[4]);
     return cat1(t[1], tok<oA>(t[2]), [&](auto &&x) -> R { return fo::maybe_multi(thunk<R>("d", d), fn1<R, A>("t", f), FWD(x)); });
   }
   if (o == "o.mm2" && n == 6)
   {
-    R const d{tok<R>(t[4])};
+    std::optional<R> const d{tokx<R>(t[4])};
     auto const f = tbl<R>(9, t[5]);
     return cat2(t[1], tok<oA>(t[2]), tok<oB>(t[3]), [&](auto &&x, auto &&y) -> R
                 { return fo::maybe_multi(thunk<R>("d", d), fn2<R, A, B>("t", f), FWD(x), FWD(y)); });
   }
   if (o == "o.mm3" && n == 7)
   {
-    R const d{tok<R>(t[5])};
+    std::optional<R> const d{tokx<R>(t[5])};
     auto const f = tbl<R>(27, t[6]);
     return cat3(t[1], tok<oA>(t[2]), tok<oB>(t[3]), tok<oC>(t[4]), [&](auto &&x, auto &&y, auto &&z) -> R
                 { return fo::maybe_multi(thunk<R>("d", d), fn3<R, A, B, C>("t", f), FWD(x), FWD(y), FWD(z)); });
@@ -584,7 +696,7 @@ std::string op(std::vector<std::string> const &t)
   if (o == "o.make_if" && n == 3)
   {
     bool const b{tok<bool>(t[1])};
-    A const v{tok<A>(t[2])};
+    std::optional<A> const v{tokx<A>(t[2])};
     return show(fo::make_if(b, thunk<A>("f", v)));
   }
   if (o == "o.cmp" && n == 3)
@@ -674,20 +786,26 @@ std::string op(std::vector<std::string> const &t)
   }
   if (o == "e.first" && n == 2)
   {
-    std::vector<eA> const l{tok<std::vector<eA>>(t[1])};
+    std::vector<std::optional<eA>> const l{tok<std::vector<std::optional<eA>>>(t[1])};
     using function_type = fcppt::function<eA()>;
     std::vector<function_type> fns;
     for (std::size_t i = 0; i < l.size(); ++i)
       fns.push_back(function_type{[i, &l]() -> eA
                                   {
                                     lg("n", {static_cast<int>(i)});
-                                    return l[i];
+                                    if (!l[i].has_value())
+                                      throw E2{};
+                                    return *l[i];
                                   }});
     return show(fe::first_success(fns));
   }
-  if (o == "e.loop" && n == 2)
+  if (o == "e.loop" && (n == 2 || n == 3))
   {
     std::vector<eA> const l{tok<std::vector<eA>>(t[1])};
+    // the body: `u` returns, `X` throws, per value
+    std::string const body{n == 3 ? t[2] : std::string{"uuu"}};
+    if (body.size() != 3 || body.find_first_not_of("uX") != std::string::npos)
+      throw bad_op{};
     std::deque<eA> q(l.begin(), l.end());
     int calls = 0;
     return show(fe::loop(
@@ -700,11 +818,16 @@ std::string op(std::vector<std::string> const &t)
           q.pop_front();
           return r;
         },
-        [](A a) { lg("b", {a.v()}); }));
+        [&body](A a)
+        {
+          lg("b", {a.v()});
+          if (body[static_cast<std::size_t>(ix(a.v()))] == 'X')
+            throw E2{};
+        }));
   }
   if (o == "e.from_opt" && n == 4)
   {
-    E const f{tok<E>(t[3])};
+    std::optional<E> const f{tokx<E>(t[3])};
     return cat1(t[1], tok<oA>(t[2]), [&](auto &&x) -> eA { return fe::from_optional(FWD(x), thunk<E>("f", f)); });
   }
   if (o == "e.try" && n == 3)
@@ -830,12 +953,199 @@ std::string op(std::vector<std::string> const &t)
   }
   if (o == "v.index" && n == 2)
     return std::to_string(tok<var3>(t[1]).type_index());
+
+  // ---------------- the same object as both operands (lvalues only)
+  if (o == "o.combine.same" && n == 4)
+  {
+    auto const f = tbl<A>(9, t[3]);
+    return cat1(t[1], tok<oA>(t[2]), [&](auto &&x) -> oA { return fo::combine(x, x, fn2<A, A, A>("f", f)); });
+  }
+  if (o == "o.apply2.same" && n == 4)
+  {
+    auto const f = tbl<R>(9, t[3]);
+    return cat1(t[1], tok<oA>(t[2]), [&](auto &&x) -> opt<R> { return fo::apply(fn2<R, A, A>("f", f), x, x); });
+  }
+  if (o == "o.mm2.same" && n == 5)
+  {
+    std::optional<R> const d{tokx<R>(t[3])};
+    auto const f = tbl<R>(9, t[4]);
+    return cat1(t[1], tok<oA>(t[2]), [&](auto &&x) -> R { return fo::maybe_multi(thunk<R>("d", d), fn2<R, A, A>("t", f), x, x); });
+  }
+  if (o == "o.alt.same" && n == 3)
+    return cat1(t[1], tok<oA>(t[2]), [&](auto &&x) -> oA
+                {
+                  return fo::alternative(x, [&x]() -> oA
+                                         {
+                                           lg("a", {});
+                                           return x;
+                                         });
+                });
+  if (o == "o.cmp.same" && n == 2)
+  {
+    oA const a{tok<oA>(t[1])};
+    return "[" + show(a == a) + show(a != a) + show(a < a) + "]";
+  }
+  if (o == "e.apply2.same" && n == 4)
+  {
+    auto const f = tbl<R>(9, t[3]);
+    return cat1(t[1], tok<eA>(t[2]), [&](auto &&x) -> eith<E, R> { return fe::apply(fn2<R, A, A>("f", f), x, x); });
+  }
+  if (o == "v.cmp.same" && n == 2)
+  {
+    var3 const l{tok<var3>(t[1])};
+    return "[" + show(l == l) + show(l != l) + show(l < l) + "]";
+  }
+  if (o == "v.compare.same" && n == 3)
+  {
+    var3 const l{tok<var3>(t[1])};
+    auto const c = tbl<bool>(27, t[2]);
+    return show(fv::compare(l, l, [&c](auto const &a, auto const &b) -> bool
+                            {
+                              int const i = std::remove_cvref_t<decltype(a)>::tag;
+                              lg("c", {i, a.v(), b.v()});
+                              return c.at((i * 3 + ix(a.v())) * 3 + ix(b.v()));
+                            }));
+  }
+
+  // ---------------- continuations that return a reference to (the payload of) their argument
+  // (maybe / match / apply pass the result through as decltype(auto) / invoke_result_t): the result must be the
+  // payload inside the source object, not that of a temporary.  Lvalue sources only.
+  if (o == "o.maybe_ref" && n == 4)
+  {
+    int const dflt{tok<A>(t[3]).v()};
+    auto const go = [&](auto &x) -> std::string
+    {
+      int const &r{fo::maybe(
+          x,
+          [&dflt]() -> int const &
+          {
+            lg("d", {});
+            return dflt;
+          },
+          [](A const &a) -> int const &
+          {
+            lg("t", {a.v()});
+            return *a.p;
+          })};
+      std::string const where{&r == &dflt ? "d" : (x.has_value() && &r == x.get_unsafe().p) ? "in" : "other"};
+      return where + ":" + std::to_string(r);
+    };
+    oA x{tok<oA>(t[2])};
+    if (t[1] == "L")
+      return go(x);
+    if (t[1] == "C")
+      return go(std::as_const(x));
+    throw bad_op{};
+  }
+  if (o == "e.match_ref" && n == 3)
+  {
+    auto const go = [&](auto &x) -> std::string
+    {
+      int const &r{fe::match(
+          x,
+          [](E const &a) -> int const &
+          {
+            lg("ff", {a.v()});
+            return *a.p;
+          },
+          [](A const &a) -> int const &
+          {
+            lg("fs", {a.v()});
+            return *a.p;
+          })};
+      int const *const in{x.has_success() ? x.get_success_unsafe().p : x.get_failure_unsafe().p};
+      return std::string{&r == in ? "in" : "other"} + ":" + std::to_string(r);
+    };
+    eA x{tok<eA>(t[2])};
+    if (t[1] == "L")
+      return go(x);
+    if (t[1] == "C")
+      return go(std::as_const(x));
+    throw bad_op{};
+  }
+  if ((o == "v.match_ref" || o == "v.apply_ref") && n == 3)
+  {
+    bool const is_match{o == "v.match_ref"};
+    auto const go = [&](auto &x) -> std::string
+    {
+      auto const fa = [](A const &a) -> int const &
+      {
+        lg("a", {a.v()});
+        return *a.p;
+      };
+      auto const fb = [](B const &a) -> int const &
+      {
+        lg("b", {a.v()});
+        return *a.p;
+      };
+      auto const fc = [](C const &a) -> int const &
+      {
+        lg("c", {a.v()});
+        return *a.p;
+      };
+      auto const all = [](auto const &a) -> int const &
+      {
+        lg("f", {std::remove_cvref_t<decltype(a)>::tag, a.v()});
+        return *a.p;
+      };
+      int const &r{is_match ? fv::match(x, fa, fb, fc) : fv::apply(all, x)};
+      int const *const in{std::visit([](auto const &a) -> int const * { return a.p; }, x.impl())};
+      return std::string{&r == in ? "in" : "other"} + ":" + std::to_string(r);
+    };
+    var3 x{tok<var3>(t[2])};
+    if (t[1] == "L")
+      return go(x);
+    if (t[1] == "C")
+      return go(std::as_const(x));
+    throw bad_op{};
+  }
+
+  // ---------------- other container types
+  if (o == "o.cat.ld" && n == 3) // std::list -> std::deque
+  {
+    std::vector<oA> const v{tok<std::vector<oA>>(t[2])};
+    return cat1(t[1], std::list<oA>(v.begin(), v.end()), [&](auto &&x) -> std::vector<A>
+                {
+                  std::deque<A> const r{fo::cat<std::deque<A>>(FWD(x))};
+                  return std::vector<A>(r.begin(), r.end());
+                });
+  }
+  if (o == "o.seq.dl" && n == 3) // std::deque -> std::list
+  {
+    std::vector<oA> const v{tok<std::vector<oA>>(t[2])};
+    return cat1(t[1], std::deque<oA>(v.begin(), v.end()), [&](auto &&x) -> opt<std::vector<A>>
+                {
+                  return fo::map(fo::sequence<std::list<A>>(FWD(x)), [](std::list<A> &&l) { return std::vector<A>(l.begin(), l.end()); });
+                });
+  }
+  if (o == "v.apply3" && n == 6)
+  {
+    auto const f = tbl<R>(27, t[5]);
+    return cat3(t[1], tok<var3>(t[2]), tok<var3>(t[3]), tok<var3>(t[4]), [&](auto &&x, auto &&y, auto &&z) -> R
+                {
+                  return fv::apply(
+                      [&f](auto &&a, auto &&b, auto &&c) -> R
+                      {
+                        int const i = std::remove_cvref_t<decltype(a)>::tag;
+                        int const j = std::remove_cvref_t<decltype(b)>::tag;
+                        int const k = std::remove_cvref_t<decltype(c)>::tag;
+                        auto const a2{FWD(a)};
+                        auto const b2{FWD(b)};
+                        auto const c2{FWD(c)};
+                        lg("f", {i, a2.v(), j, b2.v(), k, c2.v()});
+                        return f.at((ix(a2.v()) * 3 + ix(b2.v())) * 3 + ix(c2.v()));
+                      },
+                      FWD(x), FWD(y), FWD(z));
+                });
+  }
   throw bad_op{};
 }
 
 std::string handle1(std::vector<std::string> const &t)
 {
   g_log.clear();
+  g_src_mod = false;
+  auto const sm = [] { return std::string{g_src_mod ? " SRC-MODIFIED" : ""}; };
   try
   {
     std::string const r{op(t)};
@@ -847,15 +1157,15 @@ std::string handle1(std::vector<std::string> const &t)
   }
   catch (E2 const &)
   {
-    return "exc:E2 | " + show_log();
+    return "exc:E2" + sm() + " | " + show_log();
   }
   catch (E1 const &e)
   {
-    return "exc:E1:" + std::to_string(e.d) + " | " + show_log();
+    return "exc:E1:" + std::to_string(e.d) + sm() + " | " + show_log();
   }
   catch (std::exception const &)
   {
-    return "exc:std | " + show_log();
+    return "exc:std" + sm() + " | " + show_log();
   }
 }
 
